@@ -237,7 +237,24 @@ def reorder_glyphs(font: ttLib.TTFont, new_glyph_order: List[str]):
     # Cf. https://github.com/fonttools/fonttools/issues/2060
     require_fully_loaded(font)
 
+    # CFF/CFF2 pair glyph names with charstrings by position in the glyph order, and
+    # only when CharStrings is first accessed: do that while the order is still the old one
+    cff_top_dicts = [
+        font[tag].cff.topDictIndex[0] for tag in ("CFF ", "CFF2") if tag in font
+    ]
+    for top_dict in cff_top_dicts:
+        assert top_dict.CharStrings is not None
+
     font.setGlyphOrder(new_glyph_order)
+
+    # TTFont.setGlyphOrder updates glyf but leaves CFF/CFF2 alone: charset decides the
+    # order the charstrings (and their font dict selectors) are compiled in
+    for top_dict in cff_top_dicts:
+        fd_select = getattr(top_dict, "FDSelect", None)
+        if fd_select is not None and getattr(fd_select, "gidArray", None):
+            fd_of = dict(zip(old_glyph_order, fd_select.gidArray))
+            fd_select.gidArray = [fd_of[name] for name in new_glyph_order]
+        top_dict.charset = list(new_glyph_order)
 
     coverage_containers = {"GDEF", "GPOS", "GSUB", "MATH"}
     for tag in coverage_containers:
